@@ -7,7 +7,7 @@ import astropy.units as u
 from hypothesis import strategies as st
 from hypothesis.stateful import rule, initialize, precondition
 
-from ..core import MachineSub, Sub, HistoryMachine, Violation, check
+from ..core import MachineSub, Sub, HistoryMachine, Violation, check, lib
 from .. import oracle as O, gen as G, catalogue as C
 
 ASSUMPTIONS = [
@@ -45,7 +45,7 @@ def diff(a, b):
 
 
 class Pool:
-    """steps: ["new", spec, layout] | ["op", idx, name, args] | ["reuse", idx, name] | ["bad", idx, kind] | ["join", idx, k, metas, drop]"""
+    """steps: ["new", spec, layout] | ["op", idx, name, args] | ["reuse", idx, name] | ["bad", idx, kind] | ["join", idx, k, metas, drop] | ["numpy_copy", idx, kind]"""
 
     MAX = 10
 
@@ -228,6 +228,32 @@ class Pool:
         check(set(dk) == set(dk0), "signal_transform modified the dask_kwargs dict it was given: keys {} -> {}", sorted(dk0), sorted(dk))
         self.st.nt()
 
+    def s_numpy_copy(self, idx, kind):
+        """conversions through the array protocol that hand the caller (or a NumPy function) a private copy: what is then written into the copy
+        stays in the copy.  np.nan_to_num / np.array / np.copy / np.array(dtype=...) / np.sort / np.clip-free functions all promise a new array."""
+        z = self.pick(idx)
+        x = z.data
+        with lib("NumPy copy of a signal (%s)" % kind):
+            if kind == "nan_to_num":
+                c = np.nan_to_num(z, nan=1.5, posinf=2.5, neginf=-2.5)
+            elif kind == "array":
+                c = np.array(z)
+            elif kind == "array_copy_true":
+                c = np.array(z, copy=True)
+            elif kind == "copy":
+                c = np.copy(z)
+            elif kind == "array_dtype_same":
+                c = np.array(z, dtype=x.dtype)
+            elif kind == "astype_like":
+                c = np.array(z, dtype=np.complex128 if x.dtype.kind == "c" else np.float64)
+            else:
+                c = np.sort(z, axis=0) if x.dtype.kind != "c" else np.sort_complex(z)
+        c = np.asarray(getattr(c, "data", c)) if not isinstance(c, np.ndarray) else c
+        if c.size and c.flags.writeable:
+            c[...] = 7  # the caller's copy is the caller's
+        self.st.label("numpy_copy_" + kind)
+        self.st.nt()
+
     def s_bad(self, idx, kind):
         import pulsarbat as pb
 
@@ -292,6 +318,10 @@ class PoolMachine(HistoryMachine):
     @rule(idx=st.integers(0, 20), k=st.integers(0, 30), dask_too=st.booleans())
     def dicts(self, idx, k, dask_too):
         self.do(["dicts", idx, k, dask_too])
+
+    @rule(idx=st.integers(0, 20), kind=st.sampled_from(["nan_to_num", "nan_to_num", "array", "array_copy_true", "copy", "array_dtype_same", "astype_like", "sort"]))
+    def numpy_copy(self, idx, kind):
+        self.do(["numpy_copy", idx, kind])
 
     @rule(idx=st.integers(0, 20), k=st.integers(0, 30), metas=st.tuples(st.integers(0, 4), st.integers(0, 4)), drop=st.booleans())
     def join(self, idx, k, metas, drop):
